@@ -3,7 +3,7 @@
  * calendar last time) depend on the order in which two endpoints answer?
  *
  * Build and run:
- *   gcc -g -w -I/repo/src -I/repo/src/ksi /tmp/F44.c -L/repo/src/ksi/.libs -lksi -lcurl -lcrypto -o /tmp/F44 && LD_LIBRARY_PATH=/repo/src/ksi/.libs /tmp/F44
+ *   gcc -g -w -I/repo/src -I/repo/src/ksi /verif/replay/F44_ha_calendar_last_time_order_dependence.c -L/repo/src/ksi/.libs -lksi -lcurl -lcrypto -o /tmp/F44 && LD_LIBRARY_PATH=/repo/src/ksi/.libs /tmp/F44
  *
  * Exit 0 = both arrival orders give the same consolidated result (case and control).
  * Exit 1 = the consolidated result differs between the two orders (order dependence).
